@@ -259,6 +259,12 @@ func stripConv(v ssa.Value) ssa.Value {
 		case *ssa.MakeInterface:
 			v = x.X
 		default:
+			if theCtx != nil {
+				if w, ok := theCtx.lookThrough(v); ok && w != v {
+					v = w
+					continue
+				}
+			}
 			return v
 		}
 	}
